@@ -459,3 +459,9 @@ func Canon(v Val) (CanonInt, bool) {
 	}
 	return CanonInt{}, false
 }
+
+// SymDef returns the affine definition of a materialised symbol (a symbol standing for X+c mod 2^w).
+func SymDef(name string) (Affine, bool) {
+	a, ok := symDefs[name]
+	return a, ok
+}
